@@ -56,6 +56,33 @@ Example C12_without_isolated_pairs_nonvacuous :
   map (fun e => (idx e, pair e)) (paired53 (without_isolated b)) = [(1,6);(2,5)].
 Proof. exact without_isolated_pairs_nonvacuous. Qed.
 
+(* removing pseudoknots: the dot-bracket is read with the bracket type kept beside every pair (typed_pairs: the decoder of the
+   model with one more component, Proofs/C12Pk.v); the derived structure is rebuilt from exactly the pairs of type 0 -- those
+   written "(" ")" -- has the same sequence, is valid, and lists exactly those pairs *)
+From RV Require Import Proofs.C12Pk.
+Theorem C12_typed_reading : forall db ps0, parse_db db = Ok ps0 -> exists ps, typed_pairs db = Ok ps /\ map snd ps = ps0.
+Proof. exact typed_reading_exists. Qed.
+Print Assumptions C12_typed_reading.
+
+Theorem C12_without_pseudoknots : forall b db ps, typed_pairs db = Ok ps ->
+    parse_db db = Ok (map snd ps) /\
+    without_pseudoknots_of b db = Ok (from_db (sequence b) (map snd (filter (fun x => fst x =? 0) ps))).
+Proof. exact without_pk_spec. Qed.
+Print Assumptions C12_without_pseudoknots.
+
+Theorem C12_without_pseudoknots_result : forall b db ps b', typed_pairs db = Ok ps -> length b = length db ->
+    without_pseudoknots_of b db = Ok b' ->
+    sequence b' = sequence b /\ valid b' = true /\ pairs0 b' = map snd (filter (fun x => fst x =? 0) ps).
+Proof. exact without_pk_result. Qed.
+Print Assumptions C12_without_pseudoknots_result.
+
+Example C12_without_pseudoknots_nonvacuous :
+  (nth_error opening 0 = Some "("%char /\ nth_error closing 0 = Some ")"%char /\ is_pk "("%char = false /\ is_pk ")"%char = false) /\
+  let db := L "((.[[.)).]]" in
+  typed_pairs db = Ok [(0, (1, 6)); (0, (0, 7)); (1, (4, 9)); (1, (3, 10))] /\
+  parse_db (erase_pk db) = Ok [(1, 6); (0, 7)].
+Proof. split; [exact type0_is_round|exact without_pk_nonvacuous]. Qed.
+
 (* non-vacuity: the design's witness ((..)).(...) — a stem of length 2 and an isolated pair — through the history
    [without_isolated; str] *)
 Example C12_nonvacuous :
